@@ -906,3 +906,13 @@ fire("C13", "strides moved into a private helper that multiplies by the wrong ax
 silent("C13", "strides moved into a private helper",
        ("sub", "cubic.py", _STR_OLD,
         "        return np.dot(indices, self._index_strides())\n\n    def _index_strides(self):\n        strides = np.empty(self.ndim, dtype=int)\n        strides[-1] = 1\n        for i in range(self.ndim - 2, -1, -1):\n            strides[i] = strides[i + 1] * self.shape[i + 1]\n        return strides\n"))
+import os as _os
+_RK11_2 = _os.path.join(_os.path.dirname(_os.path.dirname(_os.path.abspath(__file__))), "refactors", "RK11-2", "patch.diff")
+if _os.path.exists(_RK11_2):
+    fire("C01", "table-driven Trefethen maps: the row of order 9 pairs _g3 with the derivative of _g2", "R2.map-applied-with-its-derivative",
+         ("patch", _RK11_2),
+         ("sub", "onedgrid.py", "(9, _g3, _derg3))", "(9, _g3, _derg2))"))
+    fire("C01", "pair-returning strip helper weights with the map itself", "R2.map-applied-with-its-derivative",
+         ("patch", _RK11_2),
+         ("sub", "onedgrid.py", "    return _gstrip(rho, grid.points), _dergstrip(rho, grid.points) * grid.weights\n",
+          "    return _gstrip(rho, grid.points), _gstrip(rho, grid.points) * grid.weights\n"))
